@@ -27,6 +27,14 @@ def SafeOpt (f : OptFn) (m : Msg) : Prop :=
     | .comp fs => ∃ x, lookupField fs sub = some x ∧ IntShape x = true
     | _ => False
 
+/-- what `Check<T>` wraps in the repository: an integer or a byte block -/
+def CheckShape (m : Msg) : Prop := IntShape m = true ∨ ∃ b, m = .bytes b
+
+@[simp] theorem checkShape_u8 (v : Nat) : CheckShape (.u8 v) := Or.inl rfl
+@[simp] theorem checkShape_u16 (e : Endian) (v : Nat) : CheckShape (.u16 e v) := Or.inl rfl
+@[simp] theorem checkShape_u32 (e : Endian) (v : Nat) : CheckShape (.u32 e v) := Or.inl rfl
+@[simp] theorem checkShape_bytes (b : Bytes) : CheckShape (.bytes b) := Or.inr ⟨b, rfl⟩
+
 /-- surely consumes at least one byte when it succeeds -/
 def Consuming : Msg → Bool
   | .u8 _ => true
@@ -45,14 +53,14 @@ def SafeT : Msg → Prop
   | .u16 _ _ => True
   | .u32 _ _ => True
   | .bytes _ => True
-  | .check m => IntShape m = true
+  | .check m => CheckShape m
   | .trame ms => SafeList ms
   | .comp fs => SafeFields fs
   | .dyn m f => SafeT m ∧ SafeOpt f m
   | .opt none => True
   | .opt (some m) => SafeT m
   | .array none _ => False
-  | .array (some t) _ => SafeT t ∧ Consuming t = true
+  | .array (some t) items => SafeT t ∧ Consuming t = true ∧ items = []
 def SafeList : List Msg → Prop
   | [] => True
   | m :: ms => SafeT m ∧ SafeList ms
@@ -242,7 +250,7 @@ theorem good_rdExact (n : Nat) (s : Bytes) (f : Bytes → Msg) :
 theorem safeT_of_intShape (m : Msg) (h : IntShape m = true) : SafeT m := by
   match m with
   | .u8 _ | .u16 _ _ | .u32 _ _ => simp [SafeT]
-  | .check m => simp only [IntShape] at h; simpa [SafeT] using h
+  | .check m => simp only [IntShape] at h; simp only [SafeT]; exact Or.inl h
   | .bytes _ | .trame _ | .comp _ | .dyn _ _ | .opt _ | .array _ _ => simp [IntShape] at h
 
 /-- after reading a safe template, evaluating the option closure of the result is defined -/
@@ -407,13 +415,26 @@ theorem read_good (t : Msg) (h : SafeT t) (s : Bytes) : Good (read t s) s (Consu
       rw [e] at this; exact this
   | .check m =>
     simp only [SafeT] at h
-    obtain ⟨g1, g2, g3⟩ := read_good m (safeT_of_intShape m h) s
+    have hsafe : SafeT m := by
+      rcases h with h | ⟨b, rfl⟩
+      · exact safeT_of_intShape m h
+      · simp [SafeT]
+    obtain ⟨g1, g2, g3⟩ := read_good m hsafe s
     simp only [read, Consuming]
     cases hr : read m s with
     | ok m' r =>
-      obtain ⟨hs, _⟩ := (read_int m h s).2 m' r hr
-      obtain ⟨a, ha⟩ := write_int m' hs
-      obtain ⟨b, hb⟩ := write_int m h
+      have hw : (∃ a, write m' = .ok a) ∧ (∃ b, write m = .ok b) := by
+        rcases h with h | ⟨b, rfl⟩
+        · exact ⟨write_int m' ((read_int m h s).2 m' r hr).1, write_int m h⟩
+        · refine ⟨?_, ⟨b, rfl⟩⟩
+          simp only [read] at hr
+          split at hr
+          · injection hr with e1 _; subst e1; exact ⟨_, rfl⟩
+          · cases hk : rdExact b.length s with
+            | ok a r1 => rw [hk] at hr; simp only [RR.bind_ok] at hr; injection hr with e1 _; subst e1; exact ⟨_, rfl⟩
+            | err e => rw [hk] at hr; cases hr
+            | panic p => rw [hk] at hr; cases hr
+      obtain ⟨⟨a, ha⟩, ⟨b, hb⟩⟩ := hw
       simp only [RR.bind_ok, ha, hb]
       split
       · refine ⟨?_, ?_, ?_⟩
@@ -475,7 +496,7 @@ theorem read_good (t : Msg) (h : SafeT t) (s : Bytes) : Good (read t s) s (Consu
   | .array none items => simp [SafeT] at h
   | .array (some t) items =>
     simp only [SafeT] at h
-    obtain ⟨ht, hc⟩ := h
+    obtain ⟨ht, hc, _⟩ := h
     simp only [read, Consuming]
     have hel : ∀ b, Good ((fun b => read t b) b) b true := by
       intro b; have := read_good t ht b; rw [hc] at this; exact this
@@ -880,6 +901,247 @@ theorem lengthFields_ok (fs : List (String × Msg)) (h : SafeWFields fs) (skip :
       obtain ⟨o, ho⟩ := options_ok m h.1
       obtain ⟨b, hb⟩ := lengthFields_ok fs h.2 (addSkip o skip)
       exact ⟨a + b, by simp [ha, ho, hb]⟩
+end
+
+/-! ### a parsed message is write-safe: `length()` / `write` on it cannot panic -/
+
+theorem arrayLoop_items' (rd : Bytes → RR Msg) :
+    ∀ (fuel : Nat) (s : Bytes) (acc xs : List Msg) (r : Bytes),
+    readArrayLoop rd fuel s acc = .ok xs r →
+    ∀ x ∈ xs, x ∈ acc ∨ ∃ b r', rd b = .ok x r' := by
+  intro fuel
+  induction fuel with
+  | zero => intro s acc xs r h; simp [readArrayLoop] at h
+  | succ f ih =>
+    intro s acc xs r h x hx
+    unfold readArrayLoop at h
+    cases hr : rd s with
+    | ok e rest =>
+      rw [hr] at h; simp only at h
+      split at h
+      · rcases ih rest (e :: acc) xs r h x hx with h1 | h1
+        · simp only [List.mem_cons] at h1
+          rcases h1 with h1 | h1
+          · subst h1; exact Or.inr ⟨s, rest, hr⟩
+          · exact Or.inl h1
+        · exact Or.inr h1
+      · cases h
+    | err rest =>
+      rw [hr] at h; simp only at h
+      injection h with h1 h2; subst h1
+      left; simpa using hx
+    | panic p => rw [hr] at h; cases h
+
+theorem safeW_of_intShape (m : Msg) (h : IntShape m = true) : SafeW m := by
+  match m with
+  | .u8 _ | .u16 _ _ | .u32 _ _ => simp [SafeW]
+  | .check m => simp only [IntShape] at h; simpa [SafeW] using safeW_of_intShape m h
+  | .bytes _ | .trame _ | .comp _ | .dyn _ _ | .opt _ | .array _ _ => simp [IntShape] at h
+
+theorem safeWList_of_mem (l : List Msg) (h : ∀ x ∈ l, SafeW x) : SafeWList l := by
+  induction l with
+  | nil => simp [SafeWList]
+  | cons a l ih => simp only [SafeWList]; exact ⟨h a (by simp), ih (fun x hx => h x (by simp [hx]))⟩
+
+mutual
+/-- a closure-safe template is itself write-safe -/
+theorem safeW_of_safeT (t : Msg) (h : SafeT t) : SafeW t := by
+  match t with
+  | .u8 _ | .u16 _ _ | .u32 _ _ | .bytes _ | .opt none => simp [SafeW]
+  | .check m =>
+    simp only [SafeT] at h
+    rcases h with h | ⟨b, rfl⟩
+    · simpa [SafeW] using safeW_of_intShape m h
+    · simp [SafeW]
+  | .trame ms => simp only [SafeT] at h; simpa [SafeW] using safeWList_of_safeList ms h
+  | .comp fs => simp only [SafeT] at h; simpa [SafeW] using safeWFields_of_safeFields fs h
+  | .dyn m f => simp only [SafeT] at h; simp only [SafeW]; exact ⟨safeW_of_safeT m h.1, h.2⟩
+  | .opt (some m) => simp only [SafeT] at h; simpa [SafeW] using safeW_of_safeT m h
+  | .array none _ => simp [SafeT] at h
+  | .array (some t) items => simp only [SafeT] at h; obtain ⟨_, _, e⟩ := h; subst e; simp [SafeW, SafeWList]
+theorem safeWList_of_safeList (ts : List Msg) (h : SafeList ts) : SafeWList ts := by
+  match ts with
+  | [] => simp [SafeWList]
+  | t :: ts => simp only [SafeList] at h; simp only [SafeWList]; exact ⟨safeW_of_safeT t h.1, safeWList_of_safeList ts h.2⟩
+theorem safeWFields_of_safeFields (fs : List (String × Msg)) (h : SafeFields fs) : SafeWFields fs := by
+  match fs with
+  | [] => simp [SafeWFields]
+  | (n, t) :: fs => simp only [SafeFields] at h; simp only [SafeWFields]; exact ⟨safeW_of_safeT t h.1, safeWFields_of_safeFields fs h.2⟩
+end
+
+/-- `SafeOpt` survives a read of the inner value -/
+theorem safeOpt_after_read (f : OptFn) (x x' : Msg) (hx : SafeT x) (hf : SafeOpt f x) (b r : Bytes)
+    (h1 : read x b = .ok x' r) : SafeOpt f x' := by
+  cases f with
+  | none => trivial
+  | size fld mul add sub => exact ⟨((read_int x hf.1 b).2 x' r h1).1, hf.2⟩
+  | sizeSat fld mul add sub => exact ((read_int x hf b).2 x' r h1).1
+  | skipIf fld a c => exact ((read_int x hf b).2 x' r h1).1
+  | sizeOfSub fld sub =>
+    match x, hf with
+    | .comp fs, hf =>
+      obtain ⟨y, hy, hyi⟩ := hf
+      simp only [read] at h1
+      cases h2 : readFields fs [] [] b with
+      | err e => rw [h2] at h1; cases h1
+      | panic p => rw [h2] at h1; cases h1
+      | ok fs' r2 =>
+        rw [h2] at h1; simp only [RR.bind_ok] at h1; injection h1 with e1 e2; subst e1
+        exact readFields_lookup fs [] [] b fs' r2 h2 sub y hy hyi
+
+mutual
+theorem read_safeW (t : Msg) (h : SafeT t) (s : Bytes) (m : Msg) (r : Bytes) (hr : read t s = .ok m r) : SafeW m := by
+  match t with
+  | .u8 _ | .u16 _ _ | .u32 _ _ =>
+    simp only [read] at hr
+    cases h1 : rdExact _ s with
+    | ok a r1 => rw [h1] at hr; simp only [RR.bind_ok] at hr; injection hr with e1 _; subst e1; simp [SafeW]
+    | err e => rw [h1] at hr; cases hr
+    | panic p => rw [h1] at hr; cases hr
+  | .bytes bb =>
+    simp only [read] at hr
+    split at hr
+    · injection hr with e1 _; subst e1; simp [SafeW]
+    · cases h1 : rdExact bb.length s with
+      | ok a r1 => rw [h1] at hr; simp only [RR.bind_ok] at hr; injection hr with e1 _; subst e1; simp [SafeW]
+      | err e => rw [h1] at hr; cases hr
+      | panic p => rw [h1] at hr; cases hr
+  | .check x =>
+    simp only [SafeT] at h
+    have hsafe : SafeT x := by
+      rcases h with h | ⟨b, rfl⟩
+      · exact safeT_of_intShape x h
+      · simp [SafeT]
+    simp only [read] at hr
+    cases h1 : read x s with
+    | ok a r1 =>
+      rw [h1] at hr; simp only [RR.bind_ok] at hr
+      split at hr
+      · split at hr
+        · injection hr with e1 _; subst e1; simpa [SafeW] using read_safeW x hsafe s a r1 h1
+        · cases hr
+      · cases hr
+    | err e => rw [h1] at hr; cases hr
+    | panic p => rw [h1] at hr; cases hr
+  | .trame ms =>
+    simp only [SafeT] at h
+    simp only [read] at hr
+    cases h1 : readList ms s with
+    | ok a r1 => rw [h1] at hr; simp only [RR.bind_ok] at hr; injection hr with e1 _; subst e1
+                 simpa [SafeW] using readList_safeW ms h s a r1 h1
+    | err e => rw [h1] at hr; cases hr
+    | panic p => rw [h1] at hr; cases hr
+  | .comp fs =>
+    simp only [SafeT] at h
+    simp only [read] at hr
+    cases h1 : readFields fs [] [] s with
+    | ok a r1 => rw [h1] at hr; simp only [RR.bind_ok] at hr; injection hr with e1 _; subst e1
+                 simpa [SafeW] using readFields_safeW fs h [] [] s a r1 h1
+    | err e => rw [h1] at hr; cases hr
+    | panic p => rw [h1] at hr; cases hr
+  | .dyn x f =>
+    simp only [SafeT] at h
+    simp only [read] at hr
+    cases h1 : read x s with
+    | ok x' r1 =>
+      rw [h1] at hr; simp only [RR.bind_ok] at hr; injection hr with e1 _; subst e1
+      simp only [SafeW]
+      exact ⟨read_safeW x h.1 s x' r1 h1, safeOpt_after_read f x x' h.1 h.2 s r1 h1⟩
+    | err e => rw [h1] at hr; cases hr
+    | panic p => rw [h1] at hr; cases hr
+  | .opt none => simp only [read] at hr; injection hr with e1 _; subst e1; simp [SafeW]
+  | .opt (some x) =>
+    simp only [SafeT] at h
+    simp only [read] at hr
+    cases h1 : read x s with
+    | ok x' r1 => rw [h1] at hr; simp only at hr; injection hr with e1 _; subst e1
+                  simpa [SafeW] using read_safeW x h s x' r1 h1
+    | err e => rw [h1] at hr; simp only at hr; injection hr with e1 _; subst e1; simp [SafeW]
+    | panic p => rw [h1] at hr; cases hr
+  | .array none _ => simp [SafeT] at h
+  | .array (some t) items =>
+    simp only [SafeT] at h
+    obtain ⟨ht, _, hi⟩ := h
+    subst hi
+    simp only [read] at hr
+    cases h1 : readArrayLoop (fun b => read t b) (s.length + 1) s [] with
+    | ok xs r1 =>
+      rw [h1] at hr; simp only [RR.bind_ok, List.nil_append] at hr; injection hr with e1 _; subst e1
+      simp only [SafeW]
+      apply safeWList_of_mem
+      intro x hx
+      rcases arrayLoop_items' _ _ _ _ _ _ h1 x hx with h2 | ⟨b, r', h2⟩
+      · simp at h2
+      · exact read_safeW t ht b x r' h2
+    | err e => rw [h1] at hr; cases hr
+    | panic p => rw [h1] at hr; cases hr
+theorem readList_safeW (ts : List Msg) (h : SafeList ts) (s : Bytes) (ms : List Msg) (r : Bytes)
+    (hr : readList ts s = .ok ms r) : SafeWList ms := by
+  match ts with
+  | [] => simp only [readList] at hr; injection hr with e1 _; subst e1; simp [SafeWList]
+  | t :: ts =>
+    simp only [SafeList] at h
+    simp only [readList] at hr
+    cases h1 : read t s with
+    | ok m r1 =>
+      rw [h1] at hr; simp only [RR.bind_ok] at hr
+      cases h2 : readList ts r1 with
+      | ok ms' r2 =>
+        rw [h2] at hr; simp only [RR.bind_ok] at hr; injection hr with e1 _; subst e1
+        simp only [SafeWList]
+        exact ⟨read_safeW t h.1 s m r1 h1, readList_safeW ts h.2 r1 ms' r2 h2⟩
+      | err e => rw [h2] at hr; cases hr
+      | panic p => rw [h2] at hr; cases hr
+    | err e => rw [h1] at hr; cases hr
+    | panic p => rw [h1] at hr; cases hr
+theorem readFields_safeW (fs : List (String × Msg)) (h : SafeFields fs) (skip : List String)
+    (ds : List (String × Nat)) (s : Bytes) (fs' : List (String × Msg)) (r : Bytes)
+    (hr : readFields fs skip ds s = .ok fs' r) : SafeWFields fs' := by
+  match fs with
+  | [] => simp only [readFields] at hr; injection hr with e1 _; subst e1; simp [SafeWFields]
+  | (n, m) :: fs =>
+    simp only [SafeFields] at h
+    unfold readFields at hr
+    split at hr
+    · cases h1 : readFields fs skip ds s with
+      | ok a r1 =>
+        rw [h1] at hr; simp only [RR.bind_ok] at hr; injection hr with e1 _; subst e1
+        simp only [SafeWFields]
+        exact ⟨safeW_of_safeT m h.1, readFields_safeW fs h.2 skip ds s a r1 h1⟩
+      | err e => rw [h1] at hr; cases hr
+      | panic p => rw [h1] at hr; cases hr
+    · cases hstep : readStep (fun b => read m b) (lookupSize ds n) s with
+      | err e => rw [hstep] at hr; cases hr
+      | panic p => rw [hstep] at hr; cases hr
+      | ok m' r1 =>
+        rw [hstep] at hr; simp only [RR.bind_ok] at hr
+        have hm' : SafeW m' := by
+          cases hl : lookupSize ds n with
+          | none => rw [hl] at hstep; exact read_safeW m h.1 s m' r1 hstep
+          | some k =>
+            rw [hl] at hstep
+            simp only [readStep] at hstep
+            cases hk : rdExact k s with
+            | ok loc rr =>
+              rw [hk] at hstep; simp only [RR.bind_ok] at hstep
+              cases hm : read m loc with
+              | ok mm rrr => rw [hm] at hstep; injection hstep with e1 _; subst e1; exact read_safeW m h.1 loc mm rrr hm
+              | err e => rw [hm] at hstep; cases hstep
+              | panic p => rw [hm] at hstep; cases hstep
+            | err e => rw [hk] at hstep; cases hstep
+            | panic p => rw [hk] at hstep; cases hstep
+        cases ho : options m' with
+        | err e => rw [ho] at hr; cases hr
+        | panic p => rw [ho] at hr; cases hr
+        | ok o =>
+          rw [ho] at hr; simp only at hr
+          cases h2 : readFields fs (addSkip o skip) (addSize o ds) r1 with
+          | ok a r2 =>
+            rw [h2] at hr; simp only [RR.bind_ok] at hr; injection hr with e1 _; subst e1
+            simp only [SafeWFields]
+            exact ⟨hm', readFields_safeW fs h.2 _ _ r1 a r2 h2⟩
+          | err e => rw [h2] at hr; cases hr
+          | panic p => rw [h2] at hr; cases hr
 end
 
 end Rdp
